@@ -80,6 +80,15 @@ def inputs(tier):
     for d in (dict(kind='alt', layout=[['A', 'ASP'], ['B', 'ASPs']], lys=[['B', 'LYSs'], ['C', 'LYS']]),
               dict(kind='model', layout=[[1, 'ASP'], [2, 'ASPnoCG'], [3, 'ASPs']])):
         out.append(dict(src='c08', d=d))
+    # metal sites at coordination distance (sulfur / nitrogen / oxygen 2.0-2.4 A from the metal, two ligands on one metal)
+    for a, b, dist in (('CYS', 'ZN', 2.3), ('CYS', 'FE', 2.3), ('HIS', 'ZN', 2.1), ('MSH', 'ZN', 2.3), ('ASP', 'CA', 2.35), ('CYS', 'CU', 2.2)):
+        out.append(dict(src='corpus', d=corpus.pair_desc(a, b, dist, 'mid')))
+    for ks in (('ZN', 'CYS', 'CYS'), ('ZN', 'CYS', 'HIS'), ('FE', 'CYS', 'CYS'), ('CA', 'ASP', 'GLU')):
+        out.append(dict(src='corpus', d=corpus.cluster_desc(ks, 'star', 2.3, 'mid')))
+    # residues whose interaction atoms are missing (carboxylates without oxygens, histidine without ring): the group must stay where its
+    # remaining atoms are
+    out.append(dict(src='corpus', d=corpus.window_desc('1HPX', 'A', 20, 15, strip='tips')))
+    out.append(dict(src='corpus', d=corpus.window_desc('3SGB', 'E', 40, 20, strip='tips')))
     # an atom record repeated almost on top of itself (0.004 A apart): whatever the program makes of it must not depend on the pose
     for d in (corpus.window_desc('3SGB', 'I', 26, 5), corpus.pair_desc('ASP', 'LYS', 2.8, 'mid')):
         out.append(dict(src='dup-record', d=d))
